@@ -49,9 +49,10 @@ pub fn vf_tail_steps_upto<RB: RequestBound + ?Sized, F: Fn(Offset) -> SearchResu
     ensures forall |g: spec_fn(int) -> Option<int>| #[trigger] rta_is_o(&rta, g, max_offset.v()) ==> res_view(res) == fold_upto(rbf_fn(rb), g, max_offset.v() + 1)
 { unimplemented!() }
 
-pub open spec fn supply_env<S: SupplyBound + ?Sized>(supply: &S, limit: int) -> bool {
+/// dmax: the largest demand that is ever handed to service_time
+pub open spec fn supply_env<S: SupplyBound + ?Sized>(supply: &S, limit: int, dmax: int) -> bool {
     &&& supply.wf() && 1 <= limit && 2 * limit < u64::MAX
-    &&& forall |d: int| 0 <= d <= u64::MAX ==> #[trigger] supply.st(d) <= u64::MAX && supply.ps_ok(supply.st(d))
+    &&& forall |d: int| 0 <= d <= dmax ==> #[trigger] supply.st(d) <= u64::MAX && supply.ps_ok(supply.st(d))
     &&& forall |t: int| 0 <= t <= 2 * limit + 1 ==> #[trigger] supply.ps_ok(t)
 }
 
@@ -64,6 +65,7 @@ fn bound_response_time<SBF, RBF, F, G>(
     limit: Duration,
 /*+*/    Ghost(wb): Ghost<spec_fn(int) -> int>,      // ghost (erased): the functions the two closures compute
     Ghost(w2): Ghost<spec_fn(int, int) -> int>,
+    Ghost(dmax): Ghost<int>,                    // ghost: the largest demand handed to the supply
 /*-*/) -> /*+*/(res: /*-*/SearchResult/*+*/)/*-*/
 where
     SBF: SupplyBound + ?Sized,
@@ -72,7 +74,9 @@ where
     G: Fn(Offset, Duration) -> Service,
 //@+
     requires
-        supply_env(supply, limit.v()), demand.wf(),
+        supply_env(supply, limit.v(), dmax), demand.wf(),
+        forall |x: int| 1 <= x <= limit.v() ==> #[trigger] wb(x) <= dmax,
+        forall |a: int, x: int| 0 <= a <= limit.v() && 1 <= x <= limit.v() ==> #[trigger] w2(a, x) <= dmax,
         forall |d: Duration| 1 <= d.v() <= limit.v() ==> #[trigger] bw_demand_bound.requires((d,)),
         forall |a: Offset, d: Duration| a.v() <= limit.v() && 1 <= d.v() <= limit.v() ==> #[trigger] req2(&offset_demand_bound, a, d),
         clo_is(&bw_demand_bound, wb), mono(wb), clo2_is(&offset_demand_bound, w2), mono2(w2),
@@ -85,7 +89,7 @@ where
 //@+
     proof {
         assert forall |d: Duration, s: Service| 1 <= d.v() <= limit.v() && #[trigger] bw_demand_bound.ensures((d,), s) implies
-            supply.st(s.v()) <= u64::MAX && supply.ps_ok(supply.st(s.v())) by {}
+            supply.st(s.v()) <= u64::MAX && supply.ps_ok(supply.st(s.v())) by { assert(s.v() == wb(d.v())); assert(wb(d.v()) <= dmax); }
         assert(supply.ps_ok(limit.v()));
         lemma_scan(sbf_of(supply), 0, wb, 0, limit.v());
     }
@@ -107,7 +111,8 @@ where
     // for each relevant offset in the search space,
     let rta_bounds = offsets.map( @*/let vf_rta = /*@.*/|offset/*+*/: Offset/*-*/| /*+*/-> (r: SearchResult)
         requires
-            offset.v() <= max_bw.v() <= limit.v(), is_step(rbf_fn(demand), offset.v()), supply_env(supply, limit.v()),
+            offset.v() <= max_bw.v() <= limit.v(), is_step(rbf_fn(demand), offset.v()), supply_env(supply, limit.v(), dmax),
+            forall |a: int, x: int| 0 <= a <= limit.v() && 1 <= x <= limit.v() ==> #[trigger] app2(&w2, a, x) <= dmax,
             forall |a: Offset, d: Duration| a.v() <= limit.v() && 1 <= d.v() <= limit.v() ==> #[trigger] req2(&offset_demand_bound, a, d),
             clo2_is_r(&offset_demand_bound, &w2), mono2_r(&w2),
             not_met_r(st_of(supply), rbf_fn(demand), &w2, max_bw.v(), limit.v()),
@@ -130,6 +135,7 @@ where
                 offset.v() <= supply.st(s.v()) <= u64::MAX && supply.ps_ok(supply.st(s.v())) by {
                 assert(ens2(&offset_demand_bound, offset, d, s));
                 assert(s.v() == wo(d.v()));
+                assert(app2(&w2, offset.v(), d.v()) <= dmax);
                 assert(st_of(supply)(app2(&w2, offset.v(), d.v())) >= offset.v());
             }
         }
@@ -195,7 +201,7 @@ where
     SBF: SupplyBound + ?Sized,
     RBF: RequestBound + ?Sized,
 //@+
-    requires supply_env(supply, limit.v()), rb_env(demand, limit.v())
+    requires supply_env(supply, limit.v(), demand.rbf(limit.v() + 1)), rb_env(demand, limit.v())
     ensures res_view(res) == es_spec(supply, demand, limit.v())
 //@-
 {
@@ -211,6 +217,8 @@ where
         assert(mono(df)) by { assert forall |x: int, y: int| 1 <= x <= y implies 0 <= #[trigger] df(x) <= #[trigger] df(y) by {} }
         assert(clo_is(&rhs_busy_window, df));
         assert(clo2_is(&rhs, w2));
+        assert forall |x: int| 1 <= x <= limit.v() implies #[trigger] df(x) <= demand.rbf(limit.v() + 1) by { assert(df(x) <= df(limit.v() + 1)); }
+        assert forall |a: int, x: int| 0 <= a <= limit.v() && 1 <= x <= limit.v() implies #[trigger] w2(a, x) <= demand.rbf(limit.v() + 1) by { assert(df(a + 1) <= df(limit.v() + 1)); }
         assert(mono2(w2)) by { assert forall |a: int| a >= 0 implies #[trigger] mono(at_off(w2, a)) by { assert forall |x: int, y: int| 1 <= x <= y implies 0 <= #[trigger] at_off(w2, a)(x) <= #[trigger] at_off(w2, a)(y) by { assert(0 <= df(0) <= df(a + 1)); } } }
         assert forall |l: int| scan(sbf_of(supply), 0, df, 0, limit.v()) == Some(l) implies not_met_before(st_of(supply), df, w2, l, limit.v()) by {
             assert forall |a: int, r: int| #![trigger w2(a, r)] 0 <= a <= l && is_step(df, a) && 1 <= r <= limit.v() implies w2(a, r) >= 1 && (a >= 1 ==> w2(a, r) >= df(a)) by {
@@ -222,7 +230,7 @@ where
 //@-
     // solve the fixed point for all steps of the demand curve up to
     // the maximum busy-window length and return the maximum (or divergence)
-    bound_response_time(supply, demand, rhs_busy_window, rhs, limit/*+*/, Ghost(rbf_fn(demand)), Ghost(es_w2(rbf_fn(demand)))/*-*/)
+    bound_response_time(supply, demand, rhs_busy_window, rhs, limit/*+*/, Ghost(rbf_fn(demand)), Ghost(es_w2(rbf_fn(demand))), Ghost(demand.rbf(limit.v() + 1))/*-*/)
 }
 //@end
 
@@ -273,6 +281,7 @@ pub open spec fn timer_wb(own: spec_fn(int) -> int, other: spec_fn(int) -> int, 
 pub open spec fn timer_spec<S: SupplyBound + ?Sized, R1: RequestBound + ?Sized, R2: RequestBound + ?Sized>(supply: &S, own: &R1, other: &R2, b: int, limit: int) -> Option<int> {
     ecrts_spec(sbf_of(supply), rbf_fn(own), timer_wb(rbf_fn(own), rbf_fn(other), b), intf_w2(rbf_fn(own), lw_fn(own), zero_fn(), rbf_fn(other), b), limit)
 }
+pub open spec fn two_dmax<R1: RequestBound + ?Sized, R2: RequestBound + ?Sized>(own: &R1, other: &R2, b: int, limit: int) -> int { own.rbf(2 * limit + 1) + other.rbf(2 * limit + 1) + b }
 pub open spec fn two_env<R1: RequestBound + ?Sized, R2: RequestBound + ?Sized>(own: &R1, other: &R2, b: int, limit: int) -> bool {
     &&& rb_env(own, limit) && rb_env(other, limit) && lw_env(own)
     &&& forall |x: int| 0 <= x <= 2 * limit + 1 ==> #[trigger] own.lw(x) <= u64::MAX
@@ -292,7 +301,7 @@ where
     RBF1: RequestBound + ?Sized,
     RBF2: RequestBound + ?Sized,
 //@+
-    requires supply_env(supply, limit.v()), two_env(own_demand, interfering_demand, blocking_bound.v(), limit.v())
+    requires supply_env(supply, limit.v(), two_dmax(own_demand, interfering_demand, blocking_bound.v(), limit.v())), two_env(own_demand, interfering_demand, blocking_bound.v(), limit.v())
     ensures res_view(res) == timer_spec(supply, own_demand, interfering_demand, blocking_bound.v(), limit.v())
 //@-
 {
@@ -345,11 +354,18 @@ where
         assert(mono(wb)) by { assert forall |x: int, y: int| 1 <= x <= y implies 0 <= #[trigger] wb(x) <= #[trigger] wb(y) by { assert(0 <= own(x) <= own(y)); assert(0 <= oth(x) <= oth(y)); } }
         lemma_intf_w2_mono(own, lw_fn(own_demand), zero_fn(), oth, b);
         assert(clo_is(&rhs_bw, wb)); assert(clo2_is(&rhs, w2));
+        assert forall |x: int| 1 <= x <= limit.v() implies #[trigger] wb(x) <= own(2 * limit.v() + 1) + oth(2 * limit.v() + 1) + b by { assert(own(x) <= own(2 * limit.v() + 1)); assert(oth(x) <= oth(2 * limit.v() + 1)); }
+        assert forall |a: int, x: int| 0 <= a <= limit.v() && 1 <= x <= limit.v() implies #[trigger] w2(a, x) <= own(2 * limit.v() + 1) + oth(2 * limit.v() + 1) + b by {
+            lemma_intf_mono(lw_fn(own_demand), a, x, x);
+            let i = intf_interval(lw_fn(own_demand), a, x);
+            assert(own(a + 1) <= own(2 * limit.v() + 1)); assert(oth(i) <= oth(2 * limit.v() + 1));
+        }
+
         assert forall |a: int| a >= 0 && #[trigger] is_step(own, a) implies own(a + 1) + zero_fn()(a + 1) >= 1 by { assert(0 <= own(0) <= own(a)); }
         lemma_intf_not_met(supply, own, own, lw_fn(own_demand), zero_fn(), oth, b, wb, limit.v());
     }
 //@-
-    bound_response_time(supply, own_demand, rhs_bw, rhs, limit/*+*/, Ghost(timer_wb(rbf_fn(own_demand), rbf_fn(interfering_demand), blocking_bound.v())), Ghost(intf_w2(rbf_fn(own_demand), lw_fn(own_demand), zero_fn(), rbf_fn(interfering_demand), blocking_bound.v()))/*-*/)
+    bound_response_time(supply, own_demand, rhs_bw, rhs, limit/*+*/, Ghost(timer_wb(rbf_fn(own_demand), rbf_fn(interfering_demand), blocking_bound.v())), Ghost(intf_w2(rbf_fn(own_demand), lw_fn(own_demand), zero_fn(), rbf_fn(interfering_demand), blocking_bound.v())), Ghost(two_dmax(own_demand, interfering_demand, blocking_bound.v(), limit.v()))/*-*/)
 }
 //@end
 
@@ -370,7 +386,7 @@ where
     RBF1: RequestBound + ?Sized,
     RBF2: RequestBound + ?Sized,
 //@+
-    requires supply_env(supply, limit.v()), two_env(own_demand, interfering_demand, 0, limit.v())
+    requires supply_env(supply, limit.v(), two_dmax(own_demand, interfering_demand, 0, limit.v())), two_env(own_demand, interfering_demand, 0, limit.v())
     ensures res_view(res) == pp_spec(supply, own_demand, interfering_demand, limit.v())
 //@-
 {
@@ -418,11 +434,18 @@ where
         assert(mono(wb)) by { assert forall |x: int, y: int| 1 <= x <= y implies 0 <= #[trigger] wb(x) <= #[trigger] wb(y) by { assert(0 <= own(x) <= own(y)); assert(0 <= oth(x) <= oth(y)); } }
         lemma_intf_w2_mono(own, lw_fn(own_demand), zero_fn(), oth, 0);
         assert(clo_is(&rhs_bw, wb)); assert(clo2_is(&rhs, w2));
+        assert forall |x: int| 1 <= x <= limit.v() implies #[trigger] wb(x) <= own(2 * limit.v() + 1) + oth(2 * limit.v() + 1) + 0 by { assert(own(x) <= own(2 * limit.v() + 1)); assert(oth(x) <= oth(2 * limit.v() + 1)); }
+        assert forall |a: int, x: int| 0 <= a <= limit.v() && 1 <= x <= limit.v() implies #[trigger] w2(a, x) <= own(2 * limit.v() + 1) + oth(2 * limit.v() + 1) + 0 by {
+            lemma_intf_mono(lw_fn(own_demand), a, x, x);
+            let i = intf_interval(lw_fn(own_demand), a, x);
+            assert(own(a + 1) <= own(2 * limit.v() + 1)); assert(oth(i) <= oth(2 * limit.v() + 1));
+        }
+
         assert forall |a: int| a >= 0 && #[trigger] is_step(own, a) implies own(a + 1) + zero_fn()(a + 1) >= 1 by { assert(0 <= own(0) <= own(a)); }
         lemma_intf_not_met(supply, own, own, lw_fn(own_demand), zero_fn(), oth, 0, wb, limit.v());
     }
 //@-
-    bound_response_time(supply, own_demand, rhs_bw, rhs, limit/*+*/, Ghost(timer_wb(rbf_fn(own_demand), rbf_fn(interfering_demand), 0)), Ghost(intf_w2(rbf_fn(own_demand), lw_fn(own_demand), zero_fn(), rbf_fn(interfering_demand), 0))/*-*/)
+    bound_response_time(supply, own_demand, rhs_bw, rhs, limit/*+*/, Ghost(timer_wb(rbf_fn(own_demand), rbf_fn(interfering_demand), 0)), Ghost(intf_w2(rbf_fn(own_demand), lw_fn(own_demand), zero_fn(), rbf_fn(interfering_demand), 0)), Ghost(two_dmax(own_demand, interfering_demand, 0, limit.v()))/*-*/)
 }
 //@end
 
@@ -457,7 +480,7 @@ where
     RBF3: RequestBound + ?Sized,
     RBF4: RequestBound + ?Sized,
 //@+
-    requires supply_env(supply, limit.v()), chain_env(chain_last_callback, chain_prefix, full_chain, other_chains, limit.v())
+    requires supply_env(supply, limit.v(), full_chain.rbf(2 * limit.v() + 1) + other_chains.rbf(2 * limit.v() + 1)), chain_env(chain_last_callback, chain_prefix, full_chain, other_chains, limit.v())
     ensures res_view(res) == chain_spec(supply, chain_last_callback, chain_prefix, full_chain, other_chains, limit.v())
 //@-
 {
@@ -522,16 +545,23 @@ where
         assert(mono(wb)) by { assert forall |x: int, y: int| 1 <= x <= y implies 0 <= #[trigger] wb(x) <= #[trigger] wb(y) by { assert(0 <= full(x) <= full(y)); assert(0 <= oth(x) <= oth(y)); } }
         lemma_intf_w2_mono(lastf, lw_fn(chain_last_callback), pre, oth, 0);
         assert(clo_is(&rhs_bw, wb)); assert(clo2_is(&rhs, w2));
+        assert forall |x: int| 1 <= x <= limit.v() implies #[trigger] wb(x) <= full(2 * limit.v() + 1) + oth(2 * limit.v() + 1) by { assert(full(x) <= full(2 * limit.v() + 1)); assert(oth(x) <= oth(2 * limit.v() + 1)); }
+        assert forall |a: int, x: int| 0 <= a <= limit.v() && 1 <= x <= limit.v() implies #[trigger] w2(a, x) <= full(2 * limit.v() + 1) + oth(2 * limit.v() + 1) by {
+            lemma_intf_mono(lw_fn(chain_last_callback), a, x, x);
+            let i = intf_interval(lw_fn(chain_last_callback), a, x);
+            assert(lastf(a + 1) <= lastf(2 * limit.v() + 1)); assert(pre(i) <= pre(2 * limit.v() + 1)); assert(oth(i) <= oth(2 * limit.v() + 1));
+            assert(full_chain.rbf(2 * limit.v() + 1) == chain_prefix.rbf(2 * limit.v() + 1) + chain_last_callback.rbf(2 * limit.v() + 1));
+        }
         lemma_chain_not_met(supply, chain_last_callback, chain_prefix, full_chain, other_chains, limit.v());
     }
 //@-
-    bound_response_time(supply, full_chain, rhs_bw, rhs, limit/*+*/, Ghost(timer_wb(rbf_fn(full_chain), rbf_fn(other_chains), 0)), Ghost(intf_w2(rbf_fn(chain_last_callback), lw_fn(chain_last_callback), rbf_fn(chain_prefix), rbf_fn(other_chains), 0))/*-*/)
+    bound_response_time(supply, full_chain, rhs_bw, rhs, limit/*+*/, Ghost(timer_wb(rbf_fn(full_chain), rbf_fn(other_chains), 0)), Ghost(intf_w2(rbf_fn(chain_last_callback), lw_fn(chain_last_callback), rbf_fn(chain_prefix), rbf_fn(other_chains), 0)), Ghost(full_chain.rbf(2 * limit.v() + 1) + other_chains.rbf(2 * limit.v() + 1))/*-*/)
 }
 //@end
 
 pub proof fn lemma_chain_not_met<S: SupplyBound + ?Sized, R1: RequestBound + ?Sized, R2: RequestBound + ?Sized, R3: RequestBound + ?Sized, R4: RequestBound + ?Sized>(
     supply: &S, last: &R1, prefix: &R2, full: &R3, other: &R4, limit: int)
-    requires supply_env(supply, limit), chain_env(last, prefix, full, other, limit)
+    requires supply.wf(), limit >= 1, chain_env(last, prefix, full, other, limit)
     ensures forall |l: int| scan(sbf_of(supply), 0, timer_wb(rbf_fn(full), rbf_fn(other), 0), 0, limit) == Some(l) ==>
         not_met_before(st_of(supply), rbf_fn(full), intf_w2(rbf_fn(last), lw_fn(last), rbf_fn(prefix), rbf_fn(other), 0), l, limit)
 {
